@@ -23,6 +23,9 @@ type SpecEnv struct {
 	pol   int // polarity of the position being evaluated: +1, -1, 0 (unknown)
 	role  int // 0 plain, 1 goal (positive foralls are skolemised), 2 hypothesis (foralls are registered for instantiation)
 	path  []T // antecedents enclosing the current position
+	con   *Contract // contract whose clauses are being evaluated (for `define`d functions)
+	app   int       // id of its application (0: the function's own contract)
+	entryVars map[string]SV // loop environments: old(x) of a (reassigned) parameter is its value at function entry
 }
 
 type qhyp struct {
@@ -205,6 +208,13 @@ func (vc *VC) evalSpec(e *Expr, env *SpecEnv) SV {
 	case "str":
 		return SV{t: vc.strLit(e.Name), srt: "Str"}
 	case "old":
+		if a := e.Args[0]; a.Op == "ident" && env.entryVars != nil {
+			if _, isBound := env.bound[a.Name]; !isBound {
+				if v, ok := env.entryVars[a.Name]; ok {
+					return v
+				}
+			}
+		}
 		return vc.evalSpec(e.Args[0], env.withOld())
 	case "ident":
 		return vc.evalIdent(e.Name, env)
@@ -1012,6 +1022,13 @@ func (vc *VC) evalCall(e *Expr, env *SpecEnv) SV {
 		}
 		return SV{t: app(fn, ts...), srt: f.Ret}
 	}
+	if env.con != nil {
+		for _, d := range env.con.Defines {
+			if d.Name == fn && len(args) == 1 {
+				return mathInt(app(defSym(d, env.app), ev(0).t))
+			}
+		}
+	}
 	vc.errorf("spec: unknown function %s", fn)
 	return mathInt("0")
 }
@@ -1040,4 +1057,35 @@ func (vc *VC) ghostSV(g string, env *SpecEnv) SV {
 		return SV{t: vc.heapGet(env.cur, g), typ: t}
 	}
 	return SV{t: vc.heapGet(env.cur, g), srt: vc.heapSort[g]}
+}
+
+func defSym(d *Define, app int) string { return fmt.Sprintf("def_%s_%d", d.Name, app) }
+
+// instantiateDefines declares the functions of the contract's `define` clauses for one application and returns
+// their defining axioms and the well-definedness conditions (equal keys carry equal values), evaluated in env.
+func (vc *VC) instantiateDefines(con *Contract, env *SpecEnv) (axioms []T, wellDefined []T) {
+	for _, d := range con.Defines {
+		sym := defSym(d, env.app)
+		ix := sym + "_ix"
+		iv := SV{t: "df_i", srt: "Int"}
+		keyI := vc.evalSpec(d.Key, env.bind(d.Idx, iv).nopol())
+		ks := keyI.sortIn(vc)
+		vc.declRaw("fn:"+sym, fmt.Sprintf("(declare-fun %s (%s) Int)\n(declare-fun %s (%s) Int)", sym, ks, ix, ks))
+		valI := vc.evalSpec(d.Val, env.bind(d.Idx, iv).nopol())
+		jv := SV{t: "df_j", srt: "Int"}
+		keyJ := vc.evalSpec(d.Key, env.bind(d.Idx, jv).nopol())
+		valJ := vc.evalSpec(d.Val, env.bind(d.Idx, jv).nopol())
+		gv := SV{t: app(ix, "df_d"), srt: "Int"}
+		keyG := vc.evalSpec(d.Key, env.bind(d.Idx, gv).nopol())
+		lo := vc.evalSpec(d.Lo, env.nopol()).t
+		hi := vc.evalSpec(d.Hi, env.nopol()).t
+		def := vc.evalSpec(d.Def, env.nopol()).t
+		rng := func(i T) T { return and(le(lo, i), lt(i, hi)) }
+		axioms = append(axioms,
+			"(forall ((df_i Int)) (! (=> "+rng("df_i")+" "+eq(app(sym, keyI.t), valI.t)+") :pattern ("+keyI.t+")))",
+			"(forall ((df_d "+ks+")) (! (or (and "+rng(gv.t)+" "+eq(keyG.t, "df_d")+") "+eq(app(sym, "df_d"), def)+") :pattern (("+sym+" df_d))))")
+		wellDefined = append(wellDefined,
+			"(forall ((df_i Int) (df_j Int)) (=> (and "+rng("df_i")+" "+rng("df_j")+" "+eq(keyI.t, keyJ.t)+") "+eq(valI.t, valJ.t)+"))")
+	}
+	return
 }
